@@ -390,6 +390,10 @@ func C20(c *Ctx) error {
 			specs = append(specs, &c20Spec{req: gen.MockMatrixSchema("string", "", "", []string{"plain one", e}), kind: "matrix", tags: []string{fmt.Sprintf("cell:string_example/%s#%d", cls, i)}})
 		}
 	}
+	// 1c. the empty string is an example like any other ("no suffix", "no coupon"): lists that contain it
+	for i, ex := range [][]string{{"", "Jr."}, {"", "SAVE10", "WELCOME"}, {""}} {
+		specs = append(specs, &c20Spec{req: gen.MockMatrixSchema("string", "", "", ex), kind: "matrix", tags: []string{fmt.Sprintf("cell:string_example/empty_string#%d", i)}})
+	}
 	// 2. generated schemas
 	n := c.N(24, 220)
 	for i := 0; i < n; i++ {
